@@ -44,7 +44,7 @@ def analyse(sec, kinds, spec=None):
     claimed = set()
     for p in a.pats:
         # the first pattern in trial order matching K's canonical line is K's recogniser
-        k = next((K for K, d in kinds.items() if K not in claimed and p.match(d["canon"])), None)
+        k = next((K for K, d in kinds.items() if K not in claimed and A.applies(p, d["canon"])), None)
         a.kind_of.append(k)
         if k is not None:
             claimed.add(k)
